@@ -27,11 +27,11 @@ CHECKS = {
                 text="For a generated request and a chosen trait t, the impl items of t are compared between the full request and one where every other trait (except the documented partner) is dropped or re-configured.",
                 note="documented couplings Copy/Clone, Eq/PartialEq, Ord/PartialOrd are kept together"),
     "C16": dict(engine="P", design="5/C16",
-                technique="property-based testing: repeated expansion (8x in-process, forwards/backwards history, 6-32 fresh processes) and a dev-profile vs release-profile build differential over generated multi-Into, double-fault and integer-heavy requests; outputs must be identical",
+                technique="property-based testing: repeated expansion (8x in-process, forwards/backwards history, 6-32 fresh processes, emptied and hostile environments) and build differentials (dev vs release profile; syn with and without its full feature) over generated multi-Into, double-fault, integer-heavy and expression-heavy requests; outputs must be identical",
                 text="Detects nondeterministic output or diagnostics probabilistically: every HashMap in the subject gets a fresh RandomState per expansion and per process; state leaking between expansions shows in the history pass; dependence on the build profile shows in the dev/release differential.",
                 note="a nondeterministic order over k items survives with probability (1/k!)^7 per case"),
     "C17": dict(engine="P+R", design="5/C17",
-                technique="property-based fuzzing: token-level mutants of valid requests and a bounded-exhaustive attribute grid, expanded in CPU-time-limited child processes (a crash or a busy loop names its input), every candidate re-run through rustc; nesting ladder; libFuzzer lane in the thorough tier",
+                technique="property-based fuzzing: token-level mutants of valid requests, the same requests as a macro_rules! body hands them over (fragments in None-delimited groups, whole, partial and exotic) and a bounded-exhaustive attribute grid, expanded in CPU-time-limited child processes (a crash or a busy loop names its input), every candidate re-run through rustc; nesting ladder; libFuzzer lane in the thorough tier",
                 text="Tens of thousands of structure-aware token mutants per run must yield Ok or a renderable Err; panics, process deaths (stack overflow, abort) and CPU-time exhaustion are candidates that are confirmed with the shipping macro under rustc. Non-termination is decided by CPU time (120 s in the child, 60 s inside rustc for a request whose neighbours need microseconds); a wall-clock-only timeout is exit 2.",
                 note="fallback-printer-only panics are not reported; depth beyond 64 is only sampled by the ladder (open finding F4b)"),
 }
